@@ -27,9 +27,40 @@ class Finding:
         self.construct = construct or (store.text if store is not None else "")
 
 
+def norm_rat(e):
+    """cheap normal form for rational expressions in the symbols (falls back to simplify when radicals/functions get in the way)"""
+    try:
+        return sp.cancel(sp.together(e))
+    except Exception:
+        return sp.simplify(e)
+
+
+def is_zero(e):
+    if e == 0:
+        return True
+    try:
+        if sp.cancel(sp.together(sp.expand(e))) == 0:
+            return True
+    except Exception:
+        pass
+    return sp.simplify(e) == 0
+
+
+_STENCIL_CACHE = {}
+
+
 def stencil_of(ex, store):
     """-> (terms, const) with terms = list of dict(offset=tuple, coef=expr in target symbols, ref=info), or raises
     LabelMismatch / returns offsets containing markers."""
+    key = id(store)
+    if key in _STENCIL_CACHE and _STENCIL_CACHE[key][0] is store:
+        return _STENCIL_CACHE[key][1]
+    res = _stencil_of(ex, store)
+    _STENCIL_CACHE[key] = (store, res)
+    return res
+
+
+def _stencil_of(ex, store):
     terms, const = linear_terms(ex, store)
     tsyms = target_index_symbols(store)
     subs = {}
@@ -50,9 +81,9 @@ def stencil_of(ex, store):
             raise AnalysisError(ex.rule, "a recursion step mixes references to two tables", store.func.where(store.node))
         off = offsets(store, ref)
         cf = resolve_aranges(ex, store, coef)
-        cf = sp.simplify(cf.subs(subs))
+        cf = norm_rat(cf.subs(subs))
         out.append(dict(offset=tuple(off), coef=cf, ref=ref, rid=rid))
-    const = sp.simplify(resolve_aranges(ex, store, const).subs(subs)) if const != 0 else sp.Integer(0)
+    const = resolve_aranges(ex, store, const).subs(subs) if const != 0 else sp.Integer(0)
     return out, const, tsyms, subs
 
 
@@ -91,26 +122,25 @@ def compare(ex, store, spec_terms, findings, rule, what):
         findings.append(Finding(rule, store, f"{what}: the slices `{o[1]}` (target) and `{o[2]}` (source) do not have the same length / are not a shift of each other",
                                 expected="source window = target window shifted by a constant", found=f"{o[1]} <- {o[2]}"))
         return False
-    if const != 0:
+    if not is_zero(const):
         findings.append(Finding(rule, store, f"{what}: an inhomogeneous term {const} is added in a recursion step", found=str(const)))
         return False
     code = {}
     for t in terms:
         key = tuple(int(o) for o in t["offset"])
-        code[key] = sp.simplify(code.get(key, 0) + t["coef"])
+        code[key] = code.get(key, 0) + t["coef"]
     spec = {}
     for off, cf in spec_terms:
-        spec[tuple(off)] = sp.simplify(spec.get(tuple(off), 0) + cf)
+        spec[tuple(off)] = spec.get(tuple(off), 0) + cf
     ok = True
     for off, cf in spec.items():
         if off in code:
-            d = sp.simplify(sp.together(code[off] - cf))
-            if d != 0:
+            if not is_zero(code[off] - cf):
                 findings.append(Finding(rule, store, f"{what}: coefficient of the term at offset {off} differs from the recurrence",
                                         expected=str(sp.simplify(cf)), found=str(code[off])))
                 ok = False
         else:
-            if sp.simplify(cf) != 0:
+            if not is_zero(cf):
                 findings.append(Finding(rule, store, f"{what}: the recurrence term at offset {off} with coefficient {sp.simplify(cf)} is missing "
                                                      f"(it does not vanish on the index range this statement covers)",
                                         expected=str(sp.simplify(cf)), found="term absent"))
